@@ -167,6 +167,9 @@ def check(ctx, rep):
              "members as for real files", floor=3)
     from .c16 import vfs_passing_obligations
     vfs_passing_obligations(ctx, rep, "R15i")
+    rep.rule("R15j", "a side file that exists becomes its block, also when it is empty or blank: getblock() evaluated on an entry whose extended "
+             "attributes include an empty one, with the entry's own accessors evaluated as well", floor=1)
+    ea_block_obligations(ctx, rep, "R15j")
     rep.rule("R15h", "= R10e: an entry served from the directory cache carries every field of the generated one (a size of 0 stays 0): +VIEWS and "
              "+INFO of a cached listing are those of a fresh one", floor=1)
     from .c10 import complete_pickling_obligations
@@ -340,3 +343,74 @@ def check(ctx, rep):
                     problems.append("the sidecar's lines are not joined into one block text")
         rep.add("R15e", f"{he.qualname}: sidecar lines become the block's lines", not problems, ctx.where(he), "; ".join(sorted(set(problems))),
                 key="R15e|handleeaext")
+
+
+# ---------------------------------------------------------------------------------------------- R15j
+def ea_block_obligations(ctx, rep, rule="R15j"):
+    from ..paths import Const, PathLimit, Walker
+
+    prog = ctx.prog
+    gp = ctx.cls("protocols.gopherp.GopherPlusProtocol")
+    ge = ctx.cls("gopherentry.GopherEntry")
+    gb = prog.resolve_method(gp, "getblock") if gp else None
+    getea = prog.resolve_method(ge, "getea") if ge else None
+    getdict = prog.resolve_method(ge, "geteadict") if ge else None
+    if gb is None or getea is None or getdict is None or len(gb.params) < 3:
+        rep.fail(rule, "GopherPlusProtocol.getblock / GopherEntry.getea", detail="block renderer or entry accessors not found")
+        return
+    EA = {"ABSTRACT": "", "KEYWORDS": "a\nb", "ASK": " "}
+    want = {"+ABSTRACT": "+ABSTRACT:\r\n", "+KEYWORDS": "+KEYWORDS:\r\n a\r\n b\r\n", "+ASK": "+ASK:\r\n  \r\n"}
+
+    def one(func, cls, env, facts, cv=None, holder=None):
+        w = Walker(prog, ctx.resolver, call_value=cv, exact_loops=True, unroll=6, assumptions=dict(facts), max_paths=5000,
+                   inline=lambda fn, t, d: d < 2 and t.bound_cls is not None)
+        if holder is not None:
+            holder["w"] = w
+        outs = set()
+        try:
+            for p in w.run(func, cls, env=env, facts=dict(facts)):
+                if p.kind == "raise":
+                    outs.add(("raise", str(p.value)))
+                elif p.kind == "return" and p.value is not None and p.value.kind == "const":
+                    outs.add(("val", repr(p.value.value)))
+                else:
+                    outs.add(("?", ""))
+        except PathLimit:
+            outs = {("?", "")}
+        return next(iter(outs)) if len(outs) == 1 else ("?", "")
+
+    facts_e = {"self.ea": Const(dict(EA))}
+    problems, n = [], 0
+    for block, expected in want.items():
+        holder = {}
+
+        def cv(call, target, st):
+            f = call.func
+            if not (isinstance(f, ast.Attribute) and isinstance(f.value, ast.Name) and f.value.id == gb.params[2]):
+                return None
+            a = holder["w"].cur_args or []
+            if f.attr == "geteadict":
+                r = one(getdict, ge, {}, facts_e)
+                return Const(ast.literal_eval(r[1])) if r[0] == "val" else None
+            if f.attr == "getea" and a and all(x.kind == "const" for x in a):
+                env = {getea.params[1]: a[0]}
+                dflt = getea.node.args.defaults
+                for prm, d in zip(getea.params[len(getea.params) - len(dflt):], dflt):
+                    if isinstance(d, ast.Constant):
+                        env[prm] = Const(d.value)
+                if len(a) > 1 and len(getea.params) > 2:
+                    env[getea.params[2]] = a[1]
+                r = one(getea, ge, env, facts_e)
+                return Const(ast.literal_eval(r[1])) if r[0] == "val" else None
+            return None
+
+        got = one(gb, gp, {gb.params[1]: Const(block)}, {}, cv=cv, holder=holder)
+        if got[0] == "?":
+            continue
+        n += 1
+        if got[0] == "raise":
+            problems.append(f"for an entry whose {block[1:]} side file holds {EA[block[1:]]!r}, getblock({block!r}) raises {got[1]}")
+        elif got[1] != repr(expected):
+            problems.append(f"for an entry whose {block[1:]} side file holds {EA[block[1:]]!r}, getblock({block!r}) gives {got[1]}, prescribed {expected!r}")
+    rep.add(rule, f"{gb.qualname}: blocks of side files, empty ones included [{n} of {len(want)} evaluated]", not problems and n >= 2, ctx.where(gb),
+            "; ".join(problems[:2]) if problems else ("" if n >= 2 else "the walker could not follow the renderer"), key=f"{rule}|getblock", nontrivial=n >= 2)
